@@ -5,8 +5,10 @@ expansion/supercell_mod.py: count, grouping, Cartesian images, attributes, latti
 `stdbase` formula of Lattice.setLatPar, normbase invariance, fresh objects, rejection, two-step = one-step
 up to order).
 Tie: the compiled model (`sc.run`) and the real `supercell` are run on the same seeded random structures
-(oblique/rotated cells, iso/aniso atoms, extra per-atom attributes) and multiplier sequences; atom order,
-positions, lattice, base and normbase are compared.
+(oblique/rotated cells, mirror-image settings -- an improper orientation matrix `baserot`: mirror, inversion,
+roto-inversion, mirror x rotation, axis exchange --, cell edges from 1e-6 to 1e5 Angstrom, iso/aniso atoms, extra
+per-atom attributes) and multiplier sequences; atom order, positions, lattice, base and normbase are compared.
+An exception on a valid (structure, multipliers) is a violation (`supercell:raises:<Exception>`).
 Oracle (independent of the model): plain-numpy Euclidean comparison of all images, attribute equality,
 Cartesian U tensors, identity/behavioural disjointness of result and input, snapshot of the input.
 """
@@ -90,9 +92,45 @@ def cell_ok(al, be, ga):
 ELEMENTS = ["C", "O", "Ni", "Cd", "Se", "Na", "Cl", "Ti"]
 
 
-def gen_cell(rng, kind=None):
+IMPROPER = ["mirror", "inversion", "rotoinversion", "mirror-rot", "axis-swap"]
+SIZES = {"ordinary": 1.0, "tiny": 1.0e-4, "minute": 1.0e-6, "huge": 1.0e3, "vast": 1.0e5}
+
+
+def gen_orientation(rng, orient):
+    """orientation matrix `baserot` of the cell: the identity, a proper rotation, or an IMPROPER orthogonal matrix
+    (det = -1: a mirror-image setting; `Lattice(a, b, c, alpha, beta, gamma, baserot=M)` accepts any of them and the
+    base vectors stdbase @ M then form a left-handed set -- a legitimate description of a structure's cell)"""
+    if orient == "identity":
+        return [list(r) for r in IDENT]
+    R = rot_from_quat([rng.gauss(0, 1) for _ in range(4)])
+    if orient == "proper":
+        return R
+    ax = rng.randrange(3)
+    D = [[(-1.0 if i == ax else 1.0) if i == j else 0.0 for j in range(3)] for i in range(3)]
+    if orient == "mirror":
+        return D
+    if orient == "inversion":
+        return [[-1.0 if i == j else 0.0 for j in range(3)] for i in range(3)]
+    if orient == "rotoinversion":
+        return [[-x for x in row] for row in R]
+    if orient == "mirror-rot":
+        return matmul(D, R)
+    if orient == "axis-swap":
+        P = [[0.0] * 3 for _ in range(3)]
+        i, j = [q for q in range(3) if q != ax]
+        P[ax][ax] = P[i][j] = P[j][i] = 1.0
+        return P
+    raise ValueError(orient)
+
+
+def gen_cell(rng, kind=None, orient=None, size=None):
     kind = kind or rng.choice(["cubic", "hex", "ortho", "mono", "tric", "tric", "rhomb", "special"])
-    a, b, c = (round(rng.uniform(2.0, 9.0), 3) for _ in range(3))
+    # the six cell parameters say nothing about handedness or the unit of length: one cell in six is a mirror-image
+    # setting, one in five has edges of 1e-4 .. 1e-3 or of thousands of Angstrom (nothing in the statement restricts them)
+    orient = orient or rng.choice(["identity"] * 4 + ["proper"] * 6 + IMPROPER[:2] + [rng.choice(IMPROPER)])
+    size = size or rng.choice(["ordinary"] * 8 + ["tiny", "huge"])
+    f = SIZES[size]
+    a, b, c = (round(rng.uniform(2.0, 9.0), 3) * f for _ in range(3))
     if kind == "cubic":
         cell = [a, a, a, 90.0, 90.0, 90.0]
     elif kind == "hex":
@@ -119,11 +157,15 @@ def gen_cell(rng, kind=None):
         cell = [a, b, c] + ang
     if not cell_ok(*cell[3:]):
         cell[3:] = [90.0, 90.0, 90.0]
-    rot = IDENT if rng.random() < 0.4 else rot_from_quat([rng.gauss(0, 1) for _ in range(4)])
+    rot = gen_orientation(rng, orient)
     # how the lattice object came to describe this cell: built in one go, or a default Lattice() re-based in place
     # (what the PDB / XCFG readers and `stru.lattice.setLatBase(B)` do), or parameters assigned step by step
     hist = rng.choice([None, None, None, "rebased", "rebased", "stepwise"])
-    return {"kind": kind, "abcABG": cell, "baserot": rot, "history": hist}
+    if hist == "rebased" and (orient in IMPROPER or size in ("tiny", "minute")):
+        # setLatBase documents that it refuses left-handed / nearly degenerate (|det| < 1e-8) vectors: such a cell
+        # cannot come from a re-based lattice object; constructor and setLatPar take them
+        hist = rng.choice([None, "stepwise"])
+    return {"kind": kind, "abcABG": cell, "baserot": rot, "history": hist, "orient": orient, "size": size}
 
 
 def gen_atom(rng, idx, in_cell=False):
@@ -161,9 +203,15 @@ def gen_atom(rng, idx, in_cell=False):
     return at
 
 
-def gen_structure(rng, natoms=None, kind=None, in_cell=False):
+def gen_structure(rng, natoms=None, kind=None, in_cell=False, orient=None, size=None):
     n = natoms if natoms is not None else rng.choice([0, 1, 1, 2, 2, 3, 4, 5, 6])
-    return {"lattice": gen_cell(rng, kind), "atoms": [gen_atom(rng, i, in_cell) for i in range(n)], "title": "t%d" % rng.randrange(1000)}
+    return {"lattice": gen_cell(rng, kind, orient, size), "atoms": [gen_atom(rng, i, in_cell) for i in range(n)], "title": "t%d" % rng.randrange(1000)}
+
+
+def cell_label(lat):
+    """cell kind with its orientation class / size class when unusual (for messages)"""
+    extra = [x for x in (lat.get("orient"), lat.get("size")) if x and x not in ("identity", "proper", "ordinary")]
+    return lat["kind"] + "".join("/" + x for x in extra)
 
 
 def build(spec):
@@ -379,7 +427,8 @@ def oracle(spec, mno, want_result=False, form="tuple"):
     # lattice
     Lt = T.lattice
     want = (l * a, m * b, n * c, al, be, ga)
-    if any(abs(x - y) > TOL * max(1.0, abs(y)) for x, y in zip(Lt.abcABG(), want)):
+    # edge lengths to relative accuracy (a cell may be 1e-4 or 1e5 Angstrom wide), angles in degrees
+    if any(abs(x - y) > TOL * (abs(y) if q < 3 else max(1.0, abs(y))) for q, (x, y) in enumerate(zip(Lt.abcABG(), want))):
         fails.append(("lattice", "cell %r, expected %r" % (Lt.abcABG(), want)))
     if numpy.abs(numpy.array(Lt.baserot) - numpy.array(lat["baserot"])).max() > TOL:
         fails.append(("lattice", "baserot changed"))
@@ -492,10 +541,11 @@ def oracle(spec, mno, want_result=False, form="tuple"):
     return fails, T
 
 
-def image_multiset(T, digits=7):
+def image_multiset(T, digits=7, unit=1.0):
+    """sorted (parent, attributes, Cartesian position in multiples of `unit`, rounded)"""
     import numpy
 
-    C = numpy.dot(numpy.array([a.xyz for a in T]).reshape(-1, 3), T.lattice.base)
+    C = numpy.dot(numpy.array([a.xyz for a in T]).reshape(-1, 3), T.lattice.base) / unit
     out = sorted((a.vid, attrs_of(a), tuple(round(float(x), digits) + 0.0 for x in c)) for a, c in zip(T, C))
     return out
 
@@ -515,12 +565,14 @@ def oracle_two_step(spec, p, q):
     if max(abs(x - y) for x, y in zip(T1.lattice.abcABG(), T2.lattice.abcABG())) > TOL * scale or \
             numpy.abs(T1.lattice.base - T2.lattice.base).max() > TOL * scale:
         fails.append(("two-step", "lattices differ: %r vs %r" % (T1.lattice.abcABG(), T2.lattice.abcABG())))
-    if image_multiset(T1) != image_multiset(T2):
+    # positions in units of a tenth of the longest edge of the ORIGINAL cell (as given, not as the library reports it)
+    unit = 0.1 * max(spec["lattice"]["abcABG"][:3])
+    if image_multiset(T1, 7, unit) != image_multiset(T2, 7, unit):
         # rounding at the 7th digit can split equal values; compare by nearest matching
-        A, B = image_multiset(T1, 5), image_multiset(T2, 5)
+        A, B = image_multiset(T1, 5, unit), image_multiset(T2, 5, unit)
         if A != B:
             fails.append(("two-step", "two-step %r then %r is not a rearrangement of one-step %r" % (p, q, pq)))
-    same_order = len(T1) == 0 or float(numpy.abs(numpy.array(T1.xyz_cartn) - numpy.array(T2.xyz_cartn)).max()) < 1e-7
+    same_order = len(T1) == 0 or float(numpy.abs(numpy.array(T1.xyz_cartn) - numpy.array(T2.xyz_cartn)).max()) < 1e-7 * unit
     return fails, same_order
 
 
@@ -580,12 +632,13 @@ def compare_with_model(spec, mno, mout, T):
         return ["model says %s, implementation returned %d atoms" % (M["error"], len(T))]
     if len(M["atoms"]) != len(T):
         return ["model has %d atoms, implementation %d" % (len(M["atoms"]), len(T))]
-    scale = max(M["cell"][:3] + [1.0])
-    if max(abs(x - y) for x, y in zip(M["cell"], T.lattice.abcABG())) > TOL * scale:
+    scale = max(M["cell"][:3])   # lengths and vectors to relative accuracy; angles (degrees) and the unit-free normbase absolutely
+    got = T.lattice.abcABG()
+    if max(abs(x - y) for x, y in zip(M["cell"][:3], got[:3])) > TOL * scale or max(abs(x - y) for x, y in zip(M["cell"][3:], got[3:])) > 1e-7:
         dis.append("cell: model %r impl %r" % (M["cell"], T.lattice.abcABG()))
     if numpy.abs(numpy.array(M["base"]) - T.lattice.base).max() > TOL * scale:
         dis.append("base: model %r impl %r" % (M["base"], T.lattice.base.tolist()))
-    if numpy.abs(numpy.array(M["normbase"]) - T.lattice.normbase).max() > TOL * scale:
+    if numpy.abs(numpy.array(M["normbase"]) - T.lattice.normbase).max() > TOL * 10:
         dis.append("normbase: model %r impl %r" % (M["normbase"], T.lattice.normbase.tolist()))
     for i, ((pid, xyz), t) in enumerate(zip(M["atoms"], T)):
         if pid != t.vid:
@@ -633,6 +686,18 @@ def run(ck):
     for kind in ["cubic", "hex", "ortho", "mono", "tric", "rhomb", "special"]:
         for t in ([2, 1, 3], [1, 1, 2], [3, 2, 1]):
             cases.append((gs(natoms=rng.choice([1, 2, 4]), kind=kind), t, "valid", rng.choice(FORMS)))
+    # mirror-image settings (improper orientation matrix) of every kind, and cells far from the Angstrom scale: the
+    # statement holds for any structure; (1,1,1) included (the copy path scales nothing)
+    for orient in IMPROPER:
+        for t in ([2, 1, 3], [1, 2, 1], [1, 1, 1]):
+            cases.append((gs(natoms=rng.choice([1, 2, 3]), orient=orient, size="ordinary"), t, "valid", rng.choice(FORMS)))
+    for size in ("tiny", "minute", "huge", "vast"):
+        for t in ([2, 2, 1], [1, 3, 2]):
+            cases.append((gs(natoms=rng.choice([1, 2, 3]), size=size, orient=rng.choice(["identity", "proper", "proper", "mirror-rot"])),
+                          t, "valid", rng.choice(FORMS)))
+    sp = gs(natoms=2, kind="cubic", orient="identity", size="ordinary")
+    sp["lattice"].update(abcABG=[0.001, 0.001, 0.001, 90.0, 90.0, 90.0], size="tiny", history=None)
+    cases.append((sp, [2, 2, 1], "valid", "tuple"))
     # PDFFitStructure / structures carrying pdffit metadata (nested lists), incl. the (1,1,1) copy path
     for t in ([1, 1, 1], [2, 1, 1], [1, 2, 2], [2, 2, 2]):
         for cls in ("PDFFitStructure", "Structure"):
@@ -672,7 +737,7 @@ def run(ck):
         if stratum == "valid" and len(spec["atoms"]) > 0 and mno != [1, 1, 1]:
             nontrivial += 1
         for key, msg in fails:
-            ck.fail("supercell:" + key, "supercell(%s cell, %d atoms, %r as %s): %s" % (spec["lattice"]["kind"], len(spec["atoms"]), mno, form, msg),
+            ck.fail("supercell:" + key, "supercell(%s cell, %d atoms, %r as %s): %s" % (cell_label(spec["lattice"]), len(spec["atoms"]), mno, form, msg),
                     dict(replay, observed=msg))
         ck.coverage["traces_validated_against_impl"] += 1
         if dis and not fails:
@@ -763,7 +828,9 @@ def run(ck):
     ck.coverage["samples"] = samples
     ck.coverage["rule"] = (
         "every multiplier triple in 1..%d^3 x %d seeded random structures (cell kind in cubic/hex/ortho/mono/rhomb/triclinic, random "
-        "rotation of the base in 60%%, 0-6 atoms, positions also outside [0,1), iso/aniso/no U, extra attributes), per-kind strata, the "
+        "rotation of the base in 46%%, an improper orientation matrix - mirror, inversion, roto-inversion, mirror x rotation, axis "
+        "exchange - in 23%%, edges of 1e-4..1e-3 or of thousands of Angstrom in 10%% each, 0-6 atoms, positions also outside [0,1), "
+        "iso/aniso/no U, extra attributes), per-kind strata, per-orientation and per-size strata (down to 1e-6 and up to 1e5 Angstrom), the "
         "empty structure, %d rejected multiplier sequences, all two-step factorisations of every triple; a case is distinct_nontrivial "
         "when the structure is non-empty and the triple is not (1,1,1)" % (top, reps, len(bad)))
     ck.assumptions += [
